@@ -160,6 +160,7 @@ def C03(tier):
                             "symbolic per-node sizes, NodeSpacing>=0, LayerSpacing>=1" % (N, M)),
            layout_ob("layout-bands-lp", "Harness_E_C03", sh, {"P4": [4, 1], "P1": [0, 1]},
                      consts={"P2": 1, "P5": 1, "SZ": 2, "KNOWN_FLAT": 0}, bounds="same shapes x longest-path layering x {SinkColoring,VAlign}")]
+    obs.append(ns_pivot_ob(tier))
     return dict(obligations=obs)
 
 
@@ -251,6 +252,26 @@ def C09(tier):
     return dict(obligations=obs)
 
 
+def dag_cubes(grid):
+    out = []
+    for (n, m) in grid:
+        for c in phase1_cubes(n, m):
+            el = [(c["ef[%d]" % i], c["et[%d]" % i]) for i in range(m)]
+            if __import__("vlib.driver").driver.is_acyclic(el, n):
+                out.append(c)
+    return out
+
+
+def ns_pivot_ob(tier):
+    q = tier == "quick"
+    grid = [(3, 3), (4, 4), (4, 5)] if q else [(3, 3), (4, 4), (4, 5), (5, 5), (5, 6)]
+    cubes = [dict(c, SYMDELTA=sd) for c in dag_cubes(grid) for sd in (0, 1) if sd == 0 or (c["N"], c["M"]) in ([(3, 3)] if q else [(3, 3), (4, 4)])]
+    return dict(name="ns-pivot-lemma", pkg="internal/phase2", func="Harness_NS_Pivot", consts={}, cubes=cubes, enctimeout=300, qtimeout=120,
+                bounds="one network-simplex pivot from an ARBITRARY feasible tight spanning tree: all canonical connected DAGs with (N,M) in %s (parallel edges "
+                       "included) as cubes; symbolic: the layering (0..2N per node) and the set of tree edges, assumed only to satisfy the invariant; for (N,M)=(3,3) [thorough: also (4,4)] additionally "
+                       "with symbolic minimum lengths Delta in 0..3 and weights in 0..2 per edge (as the NetworkSimplex positioner uses the same code)" % grid)
+
+
 def C10(tier):
     q = tier == "quick"
     N, M = nm(q, (4, 4), (5, 5))
@@ -259,6 +280,7 @@ def C10(tier):
                      consts={"P2": 0, "P4": 1, "P5": 0, "SZ": 0, "LSFIX": 1, "NSFIX": 1},
                      bounds="all canonical connected loop-free edge lists N<=%d M<=%d x {greedy,dfs}; symbolic: an arbitrary alternative layering alt[i] in 0..15 "
                             "(the solver searches for a cheaper feasible layering of the drawn orientation)" % (N, M))]
+    obs.append(ns_pivot_ob(tier))
     if not q:
         multi = [s for s in shapes(5, 4, selfloops=True) if not is_connected(s, 1 + max(max(e) for e in s))]
         obs.append(layout_ob("layout-ns-optimal-components", "Harness_E_C10", multi, {"P1": [0]},
